@@ -24,6 +24,8 @@ func runC12(c *Ctx) {
 	c.rule("visited-flags-written", "the Visit callback returns without writing the field (or recording an error) only when the flag name is unknown or its value cannot be obtained: a flag that was given on the command line is never silently dropped", 2)
 	c.rule("default-from-template", "every flag registration's default (or the pointer wrapped by its helper) derives from transform.GetField(sf, tmpl) of the same iteration", 60)
 	c.rule("kind-table", "in each kind arm of the registration switch the reflect type converted to, the asserted Go type and the arm's kind agree", 30)
+	c.rule("typed-registration", "in the pflag source (which relies on pflag's typed flags for range checking) the template value asserted to the arm's numeric type reaches the registration method without a widening conversion", 1)
+	c.rule("parse-once", "both Value methods parse the flag set only under !s.Flags.Parsed()", 2)
 	c.rule("flag-name-recorded", "in both flag packages every flag name computed for a field is recorded in the name->field table on every path of that loop iteration (in particular before the 'flag already registered by the application' skip)", 2)
 	c.rule("helper-writes-through", "every pointer-backed flag helper the pflag source constructs (and whose pointer it keeps to read the value back) writes through that pointer in Set and never re-binds it", 5)
 	c.rule("narrowing-guard", "standard-library flags: the reflect conversion to the field's (possibly narrower) type is dominated by the overflow helper returning false; the helper routes every integer kind to OverflowInt, unsigned to OverflowUint, both float kinds to OverflowFloat and both complex kinds to OverflowComplex", 5)
@@ -161,6 +163,8 @@ func runC12(c *Ctx) {
 	}
 	c12WritesThrough(c)
 	c12NameRecorded(c, "flag-name-recorded")
+	c12PflagTypedRegistration(c)
+	c12ParseOnce(c)
 }
 
 func c12FromGetField(v ssa.Value, getField *ssa.Function, d int) bool {
@@ -716,4 +720,74 @@ func retIsNilErr(i ssa.Instruction) bool {
 		return ok
 	}
 	return isNilConst(r.Results[len(r.Results)-1])
+}
+
+// c12PflagTypedRegistration: the pflag source has no overflow helper of its own - it relies on pflag's typed
+// flags to reject out-of-range input - so the template value asserted to the arm's type must reach the
+// registration method without a widening conversion (float32 registered through Float64P accepts 1e40 and the
+// later Convert to float32 yields +Inf). The one reviewed exception is uintptr, for which pflag has no typed flag.
+func c12PflagTypedRegistration(c *Ctx) {
+	w := c.W
+	reg := w.fn("sources/pflag", "Set.registerFlags")
+	if !c.need(reg != nil, "sources/pflag.Set.registerFlags") {
+		return
+	}
+	n := 0
+	for _, i := range allInstrs(reg) {
+		ta, ok := i.(*ssa.TypeAssert)
+		if !ok || ta.CommaOk {
+			continue
+		}
+		b, ok := ta.AssertedType.Underlying().(*types.Basic)
+		if !ok || b.Info()&types.IsNumeric == 0 {
+			continue
+		}
+		for _, r := range *ta.Referrers() {
+			cv, ok := r.(*ssa.Convert)
+			if !ok {
+				continue
+			}
+			n++
+			if b.Kind() == types.Uintptr {
+				c.okTrivial("typed-registration", "pflag#uintptr", cv.Pos(), "uintptr is registered as a 64-bit unsigned flag (pflag has no uintptr flag; reviewed)")
+				continue
+			}
+			c.bad("typed-registration", "pflag#"+b.Name(), cv.Pos(), "the %s template value is converted to %s before registration: the flag is registered with a wider type than the leaf, pflag's own range check no longer applies and an out-of-range value is silently narrowed afterwards", b.Name(), types.TypeString(cv.Type(), nil))
+		}
+	}
+	if n <= 1 {
+		c.ok("typed-registration", "pflag", reg.Pos(), "numeric template values reach their typed pflag registration method without a widening conversion")
+	}
+}
+
+// c12ParseOnce: Value parses the flag set only when the set itself says it has not been parsed yet (the owner of
+// a command-line flag set may have parsed it already; parsing again makes accumulating flags double).
+func c12ParseOnce(c *Ctx) {
+	w := c.W
+	for _, rel := range []string{"sources/flag", "sources/pflag"} {
+		val := w.fn(rel, "Set.Value")
+		parse := w.fn(rel, "Set.parse")
+		if !c.need(val != nil && parse != nil, rel+".Set.Value / parse") {
+			continue
+		}
+		n := 0
+		for _, ci := range callsToFn(val, parse) {
+			n++
+			call := ci.(*ssa.Call)
+			okG := false
+			for _, ec := range condsDominating(call.Block()) {
+				cc, ok := ec.Cond.(*ssa.Call)
+				if !ok || ec.Val || !strings.HasSuffix(calleeFullName(cc), "FlagSet).Parsed") {
+					continue
+				}
+				if _, isFld := loadOfTypeField(callArgs(cc)[0], rel+".Set", "Flags"); isFld {
+					okG = true
+				}
+			}
+			c.check(okG, "parse-once", rel, call.Pos(), "the flag set is parsed only under !s.Flags.Parsed()", "Value parses the flag set without asking the set whether it was parsed already (a private flag does not know that the set's owner called Parse): repeated slice/map/set flags are accumulated twice")
+		}
+		if n == 0 {
+			c.bad("parse-once", rel, val.Pos(), "Value never parses the flag set")
+		}
+	}
 }
